@@ -846,6 +846,11 @@ theorem readList_fwd (cfg : Cfg) : ∀ (gas : Nat) (fw : FW) (st : St) (ld) (nm)
   | gas + 1, fw, st, ld, nm, acc, p0, r, h, h1, h2 => by
     simp only [readList] at h
     split at h
+    · rename_i hom
+      obtain ⟨d, m, hd, _, _⟩ := otherMarkerType_some hom
+      cases h
+      exact ⟨Same.refl fw, h2 (by rw [hd]; simp)⟩
+    split at h
     · cases h
     · rename_i il hil
       have hio := itemLines_fwd cfg fw nm il hil
@@ -877,12 +882,9 @@ theorem readList_fwd (cfg : Cfg) : ∀ (gas : Nat) (fw : FW) (st : St) (ld) (nm)
           | some x => have := h2 (by simp); omega
         split at h
         · split at h
-          · cases h
-            exact ⟨hio.1.trans (same_pos _ _), by have := h2 (by simp); simpa using this⟩
-          · split at h
-            · cases h; exact ⟨hio.1, hpos⟩
-            · have := readList_fwd cfg gas il.fw _ _ _ _ p0 r h (by intro hh; cases hh) (fun _ => hpos)
-              exact ⟨hio.1.trans this.1, this.2⟩
+          · cases h; exact ⟨hio.1, hpos⟩
+          · have := readList_fwd cfg gas il.fw _ _ _ _ p0 r h (by intro hh; cases hh) (fun _ => hpos)
+            exact ⟨hio.1.trans this.1, this.2⟩
         · split at h
           · cases h; exact ⟨hio.1, hpos⟩
           · have := readList_fwd cfg gas il.fw _ _ _ _ p0 r h (by intro hh; cases hh) (fun _ => hpos)
@@ -1034,6 +1036,8 @@ theorem list_nr (cfg : Cfg) (gas : Nat) (hT : TokNR cfg gas) (hL : ListNR cfg ga
   intro fw st ld nm acc e hl hpk hnm hmk h
   simp only [readList] at h
   split at h
+  · cases h
+  split at h
   · rename_i e' he
     exact absurd he (itemLines_noerr cfg fw nm e' hl hpk hnm)
   · rename_i il hil
@@ -1090,10 +1094,8 @@ theorem list_nr (cfg : Cfg) (gas : Nat) (hT : TokNR cfg gas) (hL : ListNR cfg ga
       split at h
       · split at h
         · cases h
-        · split at h
-          · cases h
-          · rename_i m hne
-            exact hL il.fw st' _ _ _ e hl' (hk2 rfl) (fun hh => by cases hh) hk3 h
+        · rename_i m hne
+          exact hL il.fw st' _ _ _ e hl' (hk2 rfl) (fun hh => by cases hh) hk3 h
       · split at h
         · cases h
         · exact hL il.fw st' _ _ _ e hl' (hk2 rfl) (fun hh => by cases hh) hk3 h
@@ -2192,6 +2194,8 @@ theorem list_f (cfg : Cfg) (gas : Nat) (hT : TokF cfg gas) (hL : ListF cfg gas) 
     exact parseMarker_ok l.s m (hl l (peek_mem fw l hl1)) hl2
   simp only [readList] at h
   split at h
+  · cases h
+  split at h
   · rename_i e' he
     exact absurd he (itemLines_noerr cfg fw nm e' hl hpk hnm)
   · rename_i il hil
@@ -2254,10 +2258,8 @@ theorem list_f (cfg : Cfg) (gas : Nat) (hT : TokF cfg gas) (hL : ListF cfg gas) 
       split at h
       · split at h
         · cases h
-        · split at h
-          · cases h
-          · rename_i m0 hm0
-            exact hrec _ _ m0 _ hm0 h
+        · rename_i m0 hm0
+          exact hrec _ _ m0 _ hm0 h
       · split at h
         · cases h
         · rename_i m0 hm0
@@ -2550,45 +2552,45 @@ theorem try_m (cfg : Cfg) (gas : Nat) (hT : TokM cfg gas) (hL : ListM cfg gas) (
 
 theorem list_m (cfg : Cfg) (gas : Nat) (hT : TokM cfg gas) (hL : ListM cfg gas) : ListM cfg (gas + 1) := by
   intro fw st ld nm acc r h
-  simp only [readList] at h
-  rw [readList]
-  split at h
-  · cases h
-  · rename_i il hil
+  simp only [readList] at h ⊢
+  by_cases hom : otherMarkerType ld nm = true
+  · simpa only [hom, ↓reduceIte] using h
+  simp only [hom, Bool.false_eq_true, ↓reduceIte] at h ⊢
+  cases hil : itemLines cfg fw nm with
+  | err e => simp [hil] at h
+  | ok il =>
+    simp only [hil] at h ⊢
     cases il with
-    | empty ind pre ldr ln og nx fwx =>
+    | empty ind p ldr ln og next fw' =>
       simp only at h ⊢
-      split at h
-      · split at h
-        · rename_i hc; rw [if_pos hc]; exact h
-        · rename_i hc; rw [if_neg hc]
-          split at h
-          · exact h
-          · exact hL _ _ _ _ _ _ h
-      · split at h
-        · exact h
-        · exact hL _ _ _ _ _ _ h
-    | lines buf cstart ind pre ldr ln og nx fwx =>
+      cases ld with
+      | some d =>
+        simp only at h ⊢
+        cases next with
+        | none => exact h
+        | some m => exact hL _ _ _ _ _ _ h
+      | none =>
+        simp only at h ⊢
+        cases next with
+        | none => exact h
+        | some m => exact hL _ _ _ _ _ _ h
+    | lines buf cs ind p ldr ln og next fw' =>
       simp only at h ⊢
-      split at h
-      · cases h
-      · rename_i item itemLeader next fw' st' hres
-        split at hres
-        · cases hres
-        · rename_i hb
-          rw [hT _ _ _ _ hb]
-          cases hres
-          simp only
-          split at h
-          · split at h
-            · rename_i hc; rw [if_pos hc]; exact h
-            · rename_i hc; rw [if_neg hc]
-              split at h
-              · exact h
-              · exact hL _ _ _ _ _ _ h
-          · split at h
-            · exact h
-            · exact hL _ _ _ _ _ _ h
+      cases hb : tokenizeBlock cfg gas buf cs st with
+      | err e => simp [hb] at h
+      | ok bb =>
+        simp only [hb, hT _ _ _ _ hb] at h ⊢
+        cases ld with
+        | some d =>
+          simp only at h ⊢
+          cases next with
+          | none => exact h
+          | some m => exact hL _ _ _ _ _ _ h
+        | none =>
+          simp only at h ⊢
+          cases next with
+          | none => exact h
+          | some m => exact hL _ _ _ _ _ _ h
 
 theorem all_m (cfg : Cfg) : ∀ (gas : Nat), TokM cfg gas ∧ LoopM cfg gas ∧ TryM cfg gas ∧ ListM cfg gas
   | 0 => by
